@@ -11,13 +11,18 @@ def sh(cmd, **kw):
     r = subprocess.run(cmd, stdout=subprocess.PIPE, stderr=subprocess.STDOUT, **kw)
     return r.returncode, r.stdout.decode("utf-8", "replace")
 
-def intake(pid, name=None):
+def intake(pid, name=None, src=None):
+    """src: directory holding patch.diff / demo.cpp / meta.json (default /tmp/wt_<ID>/seeded). An entry that has already been taken in
+    and confirmed is never overwritten (a later round of sub-agents reuses the same worktrees)."""
     name = name or pid
-    wt = "/tmp/wt_%s" % pid
+    src = src or "/tmp/wt_%s/seeded" % pid
     dst = os.path.join(ROOT, "seeded", name)
+    if os.path.exists(os.path.join(dst, "meta.json")) and "confirmed_by_main_session" in open(os.path.join(dst, "meta.json")).read():
+        print("seeded/%s is already taken in and confirmed: not touched" % name)
+        return
     os.makedirs(dst, exist_ok=True)
     for f in ("patch.diff", "demo.cpp", "meta.json"):
-        shutil.copyfile(os.path.join(wt, "seeded", f), os.path.join(dst, f))
+        shutil.copyfile(os.path.join(src, f), os.path.join(dst, f))
     # independent confirmation in a fresh scratch copy
     scratch = tempfile.mkdtemp(prefix="seedchk_")
     try:
